@@ -107,9 +107,25 @@ def collect_histories(ctx, vh):
         h["tag"] = "bfs"
     hists += bfs
 
+    if tier == "thorough":
+        # one level deeper over the operations that share / extend / re-index storage
+        sharing = ["New", "Append", "SetIndices", "SetMaterials", "SetAttr", "ModifyAttr", "CopyAttr", "Translate", "Unweld",
+                   "RemoveUnreferenced", "Weld", "Export", "Split"]
+        gen_cfg(os.path.join(d2, "Gen4.cfg"), 3, 4, sharing)
+        r = core.run_tlc(ctx.scratch("gen4"), "MeshPool", "Gen4.cfg", files=[(os.path.join(d2, "Gen4.cfg"), "Gen4.cfg")],
+                         workers=core.NCPU, timeout=3000, heap="10g")
+        if r.rc != 0:
+            raise core.Infra("MeshPool specification violates its own property %s (spec bug)" % r.violated)
+        ctx.add_tlc(r)
+        bfs4 = drop_prefixes([v for v in r.values if isinstance(v, dict) and "steps" in v])
+        for h in bfs4:
+            h["tag"] = "bfs4"
+        notes["bfs_depth4_sharing_ops_histories"] = len(bfs4)
+        hists += bfs4
+
     # (2) deeper random walks of the same specification
     d = ctx.scratch("sim")
-    nsim = 3 if tier == "quick" else 40
+    nsim = 3 if tier == "quick" else 25
     gen_cfg(os.path.join(d2, "Sim.cfg"), 4, 8, ALL_OPS, simulate=True)
     r = core.run_tlc(d, "MeshPool", "Sim.cfg", files=[(os.path.join(d2, "Sim.cfg"), "Sim.cfg")],
                      workers=1, timeout=900, simulate="num=%d" % nsim, depth=12, seed=seed)
